@@ -108,7 +108,7 @@ P['C15']={
  "functions":[H+"Process",H+"redirectToIDP",H+"retrieveTokens",H+"refreshToken",H+"areRequiredTokensExpired",H+"isValidIDToken",H+"allowResponse",H+"encodeTokensToHeaders",
    A+"performIDPRequest",A+"setDenyResponse",A+"newDenyResponse",A+"newSessionErrorResponse",A+"setRedirect",A+"setSetCookieHeader",A+"encodeHeaderValue",A+"getCookieName",A+"getCookieDirectives",A+"generateSetCookieHeader",
    A+"isValidIDPNewTokensResponse",A+"isValidIDPRefreshTokenResponse",A+"getSessionIDFromCookie",A+"matchesLogoutPath",A+"matchesCallbackPath",A+"mockHandler.Process",A+"NewMockHandler",
-   "server.ExtAuthZFilter.Check","server.mustTriggerCheck","server.matchTriggerRule","server.stringMatch","server.matches","http.GetPathQueryFragment","http.EncodeCookieHeader","http.BasicAuthHeader",
+   "server.ExtAuthZFilter.Check","server.mustTriggerCheck","server.matchTriggerRule","server.stringMatch","server.matches","http.GetPathQueryFragment","http.EncodeCookieHeader","http.BasicAuthHeader","http.DecodeCookiesHeader",
    "oidc.ParseToken","oidc.TokenResponse.ParseIDToken","internal.Logger"],
  "panics":True,
  "kinds":["panic","cover","pre@call","inv-init","inv-step","post"],
